@@ -84,6 +84,8 @@ def run(ck):
                 # R3: statistics are those of the combined per-sample value
                 vm = [c for c in p.interp.ext_calls if c[0] == "torch.var_mean"]
                 okv = len(vm) == 1 and isinstance(vm[0][1][0], VTens) and vm[0][1][0].term == got
+                if got is None or (len(vm) == 1 and isinstance(vm[0][1][0], VTens) and vm[0][1][0].term is None):
+                    okv = None  # a value the analyser does not follow is undecided, never wrong
                 ck.check(okv, "C16.R3", name + ":statistics of the combined value", prog.method("ObservableBase", "statistics_from_samples").site(),
                          "statistics_from_samples of the composite does not take mean/variance of its own apply() value")
     # ------------------------------------------------------------------ R2 constructor type cases
